@@ -12,7 +12,7 @@ from symx import core
 from vf import machine as MC
 from vf.unit import eq, holds
 
-FAMILIES = ['isa_dp', 'isa_ls', 'isa_sat']
+FAMILIES = ['isa_dp', 'isa_ls', 'isa_ls_wb', 'isa_ls_hd', 'isa_br', 'isa_sys', 'isa_simd', 'isa_sat']
 _loaded = set()
 
 
